@@ -45,6 +45,13 @@
 (*      variant-leaves-aux-unjustified    ... and a justified state        *)
 (*      several-variants-applicable       (conditional-effects remover)    *)
 (*                                        at most one variant applicable   *)
+(*    "Maps back to ga" is about the action OBJECT: the table records, for *)
+(*    every compiled ground action, the agent of the returned instance and *)
+(*    the whole definition of the returned action; a variant whose         *)
+(*    returned action is not the action of that name OWNED BY that agent   *)
+(*    in the original problem (two agents may own different actions of one *)
+(*    name) is reported (variant-maps-back-to-foreign-action) and is not a *)
+(*    variant of ga.                                                       *)
 (*    an auxiliary action (maps back to nothing) never changes one of P's  *)
 (*    fluents (auxiliary-action-changes-original-fluent), and for the      *)
 (*    goals:                                                               *)
@@ -135,6 +142,8 @@ Flat(M) ==
     invariants |-> <<>>, init |-> <<>>, ifuns |-> <<>>]
 
 \* ---------- per-compilation tables (constant level: evaluated once) ----------
+\* agent ag of M owns exactly the action `act` (whole definition, not only its name)
+OwnedBy(M, ag, act) == ag \in AgNames(M) /\ \E j \in DOMAIN Ag(M, ag).actions : Ag(M, ag).actions[j] = act
 Judgeable(c) == Corpus[c].raised = "none" /\ Unresolvable(Corpus[c].MP) = {} /\ Unresolvable(Corpus[c].MQ) = {}
 Tab == TLCEval([c \in DOMAIN Corpus |->
    IF ~Judgeable(c) THEN [ok |-> FALSE]
@@ -149,10 +158,18 @@ Tab == TLCEval([c \in DOMAIN Corpus |->
             BackOf(gq) == LET js == {j \in DOMAIN bk : bk[j].qa = gq.a /\ bk[j].qargs = gq.args} IN
                           IF js = {} THEN [a |-> "?", args |-> <<>>]
                           ELSE LET b == bk[CHOOSE j \in js : TRUE] IN [a |-> b.pa, args |-> b.pargs]
+            \* a name identifies an action only inside its agent: the action OBJECT that the variant maps
+            \* back to (recorded structure pact, in the agent pag of the returned instance) must be the
+            \* action of that agent in the original problem; else the variant maps back to an action that
+            \* its agent does not own (e.g. to the same-named action of another agent)
+            Foreign(gq) == \E j \in DOMAIN bk : /\ bk[j].qa = gq.a /\ bk[j].qargs = gq.args /\ bk[j].pa # ""
+                                                 /\ ~OwnedBy(Corpus[c].MP, bk[j].pag, bk[j].pact)
+            foreign == {gq \in GQ : BackOf(gq) \in GP /\ Foreign(gq)}
         IN [ok |-> kept, P |-> P, Q |-> Q, GP |-> GP, GQ |-> GQ,
             idx |-> IF kept THEN TLCEval([i \in DOMAIN pk |-> CHOOSE j \in DOMAIN qk : qk[j] = pk[i]]) ELSE <<>>,
             aux |-> {j \in DOMAIN qk : \A i \in DOMAIN pk : pk[i] # qk[j]},
-            V |-> TLCEval([ga \in GP |-> {gq \in GQ : BackOf(gq) = ga}]),
+            V |-> TLCEval([ga \in GP |-> {gq \in GQ \ foreign : BackOf(gq) = ga}]),
+            foreign |-> foreign,
             auxacts |-> {gq \in GQ : BackOf(gq).a = ""},
             lost |-> {gq \in GQ : BackOf(gq).a # "" /\ BackOf(gq) \notin GP}]])
 
@@ -208,6 +225,7 @@ PerCompilation(c) ==
         /\ (Tab[c].ok \/ Report(c, "original-ground-fluent-missing", ""))
         /\ (~Tab[c].ok \/
              /\ \A gq \in Tab[c].lost : Report(c, "variant-maps-back-to-unknown-action", gq.a)
+             /\ \A gq \in Tab[c].foreign : Report(c, "variant-maps-back-to-foreign-action", gq.a)
              /\ (Restrict(c, r.qinit) = r.pinit \/ Report(c, "initial-state-differs", ""))
              /\ (AnyU(r.qinit) \/ Justified(c, r.qinit) \/ Report(c, "initial-state-aux-unjustified", ""))
              /\ (~AnyU(r.qinit) \/ Report(c, "initial-value-missing", ""))))
